@@ -72,6 +72,7 @@ AuxInit == [dur |-> <<>>,       \* map id -> BOOLEAN: the disk image is known to
             fault |-> FALSE,    \* a write fault (RLIMIT_FSIZE) is being injected
             design |-> TRUE,    \* advance the design layer on every update (off for long contract-only traces)
             nf |-> 0,           \* verdicts in this history so far
+            inst |-> <<>>,      \* map id -> identity of the buffered instance its handles share (AbyReg!OneInstance)
             hist |-> 0]         \* history number (counts "reset" events)
 
 Init == /\ l = 0 /\ mem = <<>> /\ meta = <<>> /\ st = <<>> /\ last = <<>>
@@ -624,6 +625,17 @@ Proc(e) ==
             [base EXCEPT !.fails = OutcomeFails(e)]
       [] OTHER -> base
 
+\* binding of AbyReg!OneInstance (hook verif_instance_id): every handle obtained for a map name while the
+\* database is open - first lookup, repeated lookup with or without parameters, through a cloned database
+\* handle, clone of a handle - denotes ONE buffered instance
+InstStep(e, a) ==
+    IF e.ev \in {"drop_all", "new_process", "kill_here", "open_db", "reset"} THEN [inst |-> <<>>, fails |-> {}]
+    ELSE IF e.ev \in {"map", "clone_h"} /\ Has(e, "inst") /\ Has(e, "m") /\ e.outcome = "ok"
+    THEN IF e.m \in DOMAIN a.inst
+         THEN [inst |-> a.inst, fails |-> IF a.inst[e.m] = e.inst THEN {} ELSE {"C11.one_instance"}]
+         ELSE [inst |-> Set(a.inst, e.m, e.inst), fails |-> {}]
+    ELSE [inst |-> a.inst, fails |-> {}]
+
 Next ==
     /\ l < NRec
     /\ l' = l + 1
@@ -637,7 +649,10 @@ Next ==
                                            ev |-> e.ev, outcome |-> e.outcome, msg |-> Fld(e, "msg", "-"), m |-> Fld(e, "m", "-"), tag |-> Fld(e, "tag", "-")])>>)
             /\ skip' = TRUE /\ nfail' = nfail + 1
             /\ UNCHANGED <<mem, meta, st, last, aux>>
-       ELSE LET r == Proc(e) IN
+       ELSE LET r0 == Proc(e)
+                is == InstStep(e, r0.aux)
+                r  == [r0 EXCEPT !.fails = @ \cup is.fails, !.aux = [@ EXCEPT !.inst = is.inst]]
+            IN
             /\ mem' = r.mem /\ meta' = r.meta /\ st' = r.st /\ last' = r.last
             /\ aux' = IF r.fails # {} /\ e.ev # "reset" THEN [r.aux EXCEPT !.nf = r.aux.nf + 1] ELSE r.aux
             /\ IF r.fails # {}
